@@ -11,7 +11,7 @@
 EXTENDS Naturals, Sequences
 
 Versions == {<<1, 0>>, <<1, 1>>, <<2, 0>>, <<2, 1>>, <<2, 2>>}
-Classes == {"classic", "ele1"}
+Classes == {"classic", "ele1", "ele2"}
 IsRsa(v) == v[1] = 1
 BindsUuid(v) == v[1] = 2                       \* the response of the ECC versions carries and signs the device UUID
 \* modulus bytes (RSA) / coordinate bytes (ECC)
@@ -31,8 +31,14 @@ RECURSIVE Rep(_, _)
 Rep(s, k) == IF k = 0 THEN <<>> ELSE s \o Rep(s, k - 1)
 SrkTable(v, n) == <<F("srk_table_header", 4)>> \o Rep(SrkRecord(v), n)
 
+\* enclave, container version 2: the credential is an AHAB certificate (no protocol version, no vendor usage, no RoT meta data:
+\* the SRK table travels in the response); layout from the format tables of the AHAB documentation, no golden artefact
+Cert2 (v) == <<F("hdr", 4), F("sig_offset", 2), F("permissions", 2), F("socc", 4), F("cc_socu", 4), F("cc_beacon", 4), F("fuse_version", 4),
+               F("uuid", 16), F("srk_record", 12), F("srk_data_hash", 64), F("srk_data_header", 8), F("dck", 2 * KeySize(v)),
+               F("sig_header", 8), F("signature", SigLen(v))>>
 DcFieldLens(cls, v, n) ==
-  IF cls = "ele1"
+  IF cls = "ele2" THEN Cert2(v)
+  ELSE IF cls = "ele1"
     THEN Hdr \o Constraints \o <<F("rotflags", 4)>> \o SrkTable(v, n) \o <<F("dck", EleDckLen(v)), F("signature", SigLen(v))>>
   ELSE IF IsRsa(v)
     THEN Hdr \o <<F("rotmeta", 128), F("dck", KeyBlobLen(v))>> \o Constraints \o <<F("rotpub", KeyBlobLen(v)), F("signature", SigLen(v))>>
@@ -45,9 +51,18 @@ SumLen(s) == IF s = <<>> THEN 0 ELSE Head(s).l + SumLen(Tail(s))
 WithOffsets(s) == [i \in 1..Len(s) |-> [n |-> s[i].n, o |-> SumLen(SubSeq(s, 1, i - 1)), l |-> s[i].l]]
 DcTable(cls, v, n) == WithOffsets(DcFieldLens(cls, v, n))
 DcLen(cls, v, n) == SumLen(DcFieldLens(cls, v, n))
-DcSigAt(cls, v, n) == DcLen(cls, v, n) - SigLen(v)          \* the RoT signature covers bytes [0, DcSigAt)
+\* the RoT signature covers bytes [0, DcSigAt)  (ele2: up to the header of the signature container)
+DcSigAt(cls, v, n) == DcLen(cls, v, n) - SigLen(v) - (IF cls = "ele2" THEN 8 ELSE 0)
 
-DarFieldLens(cls, v, n) == <<F("dc", DcLen(cls, v, n)), F("beacon", 4)>> \o (IF BindsUuid(v) THEN <<F("uuid", 16)>> ELSE <<>>)
+\* ele2: the response is a signed message: container header, message (descriptor, header, uuid, challenge vector, beacon), signature
+\* block (header, SRK table array with the data of the used key, container signature, certificate = the credential), zero padding to 8
+Msg2Body(v) == <<F("container_header", 16), F("msg_descriptor", 36), F("msg_header", 8), F("msg_uuid", 8), F("challenge", 32), F("beacon", 2),
+                 F("sigblock_header", 16), F("srk_array_header", 8), F("srk_table_header", 4)>> \o Rep(<<F("srk_record", 76)>>, 4)
+               \o <<F("srk_data_header", 8), F("rotpub", 2 * KeySize(v)), F("sig_header", 8), F("signature", SigLen(v)), F("dc", SumLen(Cert2(v)))>>
+Msg2(v) == Msg2Body(v) \o <<F("pad", (8 - (SumLen(Msg2Body(v)) % 8)) % 8)>>
+Msg2SigAt(v) == SumLen(Msg2Body(v)) - SumLen(Cert2(v)) - SigLen(v) - 8        \* the debug key signs bytes [0, Msg2SigAt)
+DarFieldLens(cls, v, n) == IF cls = "ele2" THEN Msg2(v) ELSE
+                           <<F("dc", DcLen(cls, v, n)), F("beacon", 4)>> \o (IF BindsUuid(v) THEN <<F("uuid", 16)>> ELSE <<>>)
                            \o <<F("signature", SigLen(v))>>
 DarTable(cls, v, n) == WithOffsets(DarFieldLens(cls, v, n))
 DarLen(cls, v, n) == SumLen(DarFieldLens(cls, v, n))
@@ -61,19 +76,30 @@ DacLen(hl) == 4 + 4 + 16 + 4 + hl + 4 + 4 + 4 + 32
 
 \* domain of the credential cases
 ValidCase(cls, v, n, used) == /\ cls \in Classes /\ v \in Versions /\ n \in 1..4 /\ used \in 0..(n - 1)
-                              /\ (cls = "ele1" => n = 4)                      \* an enclave SRK table always has four keys
+                              /\ (cls \in {"ele1", "ele2"} => n = 4)            \* an enclave SRK table always has four keys
+                              /\ (cls = "ele2" => ~IsRsa(v))                   \* container version 2 is asserted for the ECC key types
 \* the root-of-trust hash clause needs the image side to define a value: it does not for P-521 (no certificate block takes it)
 RotHashDefined(v) == v # <<2, 2>>
 
 \* ---- facts
-SignedFields(cls, v, n) == {DcFieldLens(cls, v, n)[i].n : i \in 1..(Len(DcFieldLens(cls, v, n)) - 1)}
+SignedFields(cls, v, n) == {DcFieldLens(cls, v, n)[i].n : i \in 1..(Len(DcFieldLens(cls, v, n)) - 1)} \ {"sig_header"}
+\* ele2: challenge vector, beacon and the selected SRK lie inside the range the debug key signs; the credential does not (it is
+\* bound to the response through the debug key only - container format, not reported)
+Msg2Lemma(v) == LET T == WithOffsets(Msg2(v)) IN
+  /\ \A i \in 1..Len(T) : T[i].n \in {"container_header", "msg_header", "msg_uuid", "challenge", "beacon", "sigblock_header", "srk_record", "rotpub"}
+                              => T[i].o + T[i].l <= Msg2SigAt(v)
+  /\ \E i \in 1..Len(T) : T[i].n = "sig_header" /\ T[i].o = Msg2SigAt(v)
+  /\ SumLen(Msg2(v)) % 8 = 0
 LayoutLemma(cls, v, n) ==
   LET T == DcTable(cls, v, n) IN
-  /\ T[Len(T)].n = "signature" /\ T[Len(T)].o = DcSigAt(cls, v, n)                            \* the signature is the last field
-  /\ \A i \in 1..(Len(T) - 1) : T[i].o + T[i].l = T[i + 1].o /\ T[i].o + T[i].l <= DcSigAt(cls, v, n)   \* gap-free, all preceding fields inside the signed range
-  /\ {"version", "socc", "uuid", "dck", "cc_socu", "cc_vu", "cc_beacon"} \subseteq SignedFields(cls, v, n)
-  /\ SignedFields(cls, v, n) \cap {"rotmeta", "rotflags"} # {}                              \* RoT meta data is signed too
+  /\ T[Len(T)].n = "signature" /\ T[Len(T)].o = DcLen(cls, v, n) - SigLen(v)                   \* the signature is the last field
+  /\ \A i \in 1..(Len(T) - 1) : /\ T[i].o + T[i].l = T[i + 1].o                                 \* gap-free
+                                 /\ (T[i].n # "sig_header" => T[i].o + T[i].l <= DcSigAt(cls, v, n))   \* all preceding fields inside the signed range
+  /\ IF cls = "ele2" THEN {"socc", "uuid", "dck", "cc_socu", "cc_beacon", "permissions"} \subseteq SignedFields(cls, v, n)
+     ELSE /\ {"version", "socc", "uuid", "dck", "cc_socu", "cc_vu", "cc_beacon"} \subseteq SignedFields(cls, v, n)
+          /\ SignedFields(cls, v, n) \cap {"rotmeta", "rotflags"} # {}                         \* RoT meta data is signed too
 ASSUME /\ DcLen("classic", <<1, 0>>, 1) = 940 /\ DcLen("classic", <<2, 0>>, 1) = 232 /\ DcLen("classic", <<2, 1>>, 4) = 520
        /\ DcLen("ele1", <<2, 0>>, 4) = 476 /\ DcLen("ele1", <<1, 0>>, 4) = 1647
        /\ DacLen(32) = 104 /\ DacLen(48) = 120
+       /\ DcLen("ele2", <<2, 0>>, 4) = 260 /\ SumLen(Msg2(<<2, 0>>)) = 840 /\ Msg2SigAt(<<2, 0>>) = 506
 =============================================================================
